@@ -55,6 +55,10 @@ A_OPS = {
     'start-hookfail': ('start', dict(name='h', waiting=True)),
     'start-execfail': ('start', dict(name='e', waiting=True)),
     'start-hook-sysexit': ('start', dict(name='x', waiting=True)),
+    # a worker whose helper process (ignoring every signal) inherited the pipes the daemon captures its output with
+    'stop-captured': ('stop', dict(name='k', waiting=True)),
+    'restart-captured': ('restart', dict(name='k', waiting=True)),
+    'decr-captured': ('decr', dict(name='k', nb=1, waiting=True)),
     'stop-all': ('stop', dict(waiting=True)),
     'start-all': ('start', dict(waiting=True)),
     'restart-glob': ('restart', dict(name='*', waiting=True)),
@@ -101,6 +105,8 @@ def base_spec(rnd=None):
                 {'name': 'x', 'numprocesses': 1, 'autostart': False, 'graceful_timeout': 0.1,
                  'hooks': {'before_start': ['exit', False]}},
                 {'name': 'p', 'numprocesses': 1, 'graceful_timeout': 0.1},
+                {'name': 'k', 'numprocesses': 2, 'graceful_timeout': 0.1, 'capture': 'both',
+                 'kids': [{'beh': {'*': ['ignore']}}]},
                 {'name': 'L', 'numprocesses': 4, 'graceful_timeout': 0.1, 'warmup_delay': 2.5}],
             'arb': {'warmup_delay': 0.0 if rnd is None else rnd.choice([0, 0.1])}}
 
